@@ -328,6 +328,54 @@ def mk_incidence(kind, dim, affine=False):
     return case
 
 
+def mk_inverse_big_collection(dim):
+    """inverse of a collection of 64 transformations (closed-form adjugate branch of utils.math.inv), then the collection is used again:
+    t.inverse() * (t * x) = x and the collection's own matrices are unchanged.  dim 1: transformations of the projective line (2x2)."""
+    def case(ctx):
+        import random
+        from geometer import TransformationCollection, Point
+        n = dim + 1
+        rnd = random.Random(11 + n)
+        a0, M0 = sym_matrix(ctx, "t", n, False)
+        ctx.assume(ctx.neg(ctx.is_zero(R.det(M0))))
+        mats, plain = [], []
+        for k in range(64):
+            if k == 9:
+                mats.append(a0)
+                plain.append(M0)
+                continue
+            while True:
+                Mk = [[rnd.randint(-3, 3) for _ in range(n)] for _ in range(n)]
+                if abs(np.linalg.det(np.array(Mk, dtype=float))) > 0.5:
+                    break
+            mats.append(ctx.const(Mk, float))
+            plain.append(Mk)
+        Tc = TransformationCollection(np.stack(mats))
+        x = vec(ctx, "x", n)
+        ctx.assume(R.nonzero(ctx, E(x)))
+        from geometer import PointCollection
+        X = PointCollection(np.stack([x] * 64))        # one point per transformation (positionwise application)
+        back = Tc.inverse() * (Tc * X)
+        for k in (9, 0, 37):
+            ctx.require(f"C06:big-collection:inverse*(t*x)=x[{k}]", R.proportional(ctx, E(back.array[k]), E(x)))
+            ctx.require(f"C06:big-collection:matrices-unchanged[{k}]", ctx.all([ctx.eq(u, v) for u, v in zip(flat(R.mat(Tc.array[k])), flat(plain[k]))]))
+    return case
+
+
+def mk_dualquadric_image(dim, affine=False):
+    """a dual quadric (matrix D acting on hyperplanes) transforms contragrediently to a point quadric: T*D = M D M^T"""
+    def case(ctx):
+        n = dim + 1
+        T, M = transformation(ctx, "t", n, affine)
+        D = objects(ctx, "dualquadric", dim)
+        TD = T * D
+        ctx.require("C07:dualquadric:is_dual-kept", getattr(TD, "is_dual", None) is True)
+        ref = R.matmul(R.matmul(M, R.mat(D.array)), R.transpose(M))
+        ctx.require("C07:dualquadric:image-is-M.D.M^T", R.proportional(ctx, flat(R.mat(TD.array)), flat(ref)))
+        ctx.require("C07:dualquadric:image-nonzero-like-reference", ctx.iff(R.nonzero(ctx, flat(R.mat(TD.array))), R.nonzero(ctx, flat(ref))))
+    return case
+
+
 def case_plane_line_incidence(ctx):
     """plane E through the line L (by construction): E.contains(L), and the images stay incident -- asked in this order
     (first query, then transform, then query the images)"""
@@ -526,6 +574,9 @@ def all_cases(which):
         for kind in ("point", "hyper", "segment", "triangle", "polygon4"):
             cs.append((f"image_nonzero_{kind}_{dim}d", mk_image_nonzero(kind, dim, affine=(dim == 3 and kind not in ("point", "hyper"))), dict(tiers=Q if (dim == 2 or kind == "segment") else ("attempt",))))
         cs.append((f"int_matrix_{dim}d", mk_int_matrix(dim), dict(tiers=Q)))
+        cs.append((f"inverse_big_collection_{dim}d", mk_inverse_big_collection(dim), dict(tiers=Q)))
+        if dim == 2:
+            cs.append(("inverse_big_collection_1d", mk_inverse_big_collection(1), dict(tiers=Q)))
         cs.append((f"compose_{dim}d", case_compose_matrix(dim, affine=False), dict(tiers=Q)))
         if dim == 2:
             cs.append(("grid_lattice", case_grid_lattice, dict(tiers=Q)))
@@ -546,6 +597,8 @@ def c07_cases():
         cs.append((f"tangent_{dim}d", mk_tangent_preserved(dim, affine=(dim == 3)), dict(tiers=Q if dim == 2 else Tt)))
         cs.append((f"polytope_segment_{dim}d", mk_polytope_vertices("segment", dim), dict(tiers=Q)))
         cs.append((f"polytope_polygon4_{dim}d", mk_polytope_vertices("polygon4", dim, affine=(dim == 3)), dict(tiers=Q)))
+    cs.append(("dualquadric_image_2d", mk_dualquadric_image(2), dict(tiers=Q)))
+    cs.append(("dualquadric_image_3d", mk_dualquadric_image(3, affine=True), dict(tiers=Q)))
     cs.append(("int_matrix_2d", mk_int_matrix(2), dict(tiers=Q)))
     cs.append(("int_matrix_3d", mk_int_matrix(3), dict(tiers=Q)))
     cs.append(("incidence_line3_3d", mk_incidence("line3", 3, affine=True), dict(tiers=Q)))
